@@ -2,7 +2,7 @@
    (SM4/ModesSpec.v), for an abstract block cipher; the instantiation by SM4 is at the end.
    Property theorems are restated in Props/C11.v. *)
 From Coq Require Import List NArith Arith Bool Lia ZifyN ZifyNat ZifyBool.
-From GmsmVerif Require Import Lib.Outcome SM4.SM4Spec SM4.SM4Proofs SM4.ModesSpec SM4.ModesModel.
+From GmsmVerif Require Import Lib.Outcome SM4.SM4Spec SM4.SM4Lemmas SM4.ModesSpec SM4.ModesModel.
 Import ListNotations.
 Local Open Scope nat_scope.
 
